@@ -21,6 +21,8 @@ REQUIRED = [
     'Ems.C13.normalize_idempotent', 'Ems.C13.none_untouched_sign', 'Ems.C13.none_untouched_order',
     'Ems.C13.none_none_identity', 'Ems.C13.others_untouched', 'Ems.C13.normalize_rejects',
     'Ems.C13.normalize_preserves_valid',
+    'Ems.C13.sign_only_succeeds', 'Ems.C13.sign_only_sign', 'Ems.C13.sign_only_bounds',
+    'Ems.C13.sign_only_data_untouched', 'Ems.C13.sign_only_idempotent', 'Ems.C13.sign_only_none_identity',
 ]
 RULE = ('(a) systematic block: one depth coordinate per dataset over the product {positive attribute present, '
         'absent} x {no bounds, bounds as data variable, bounds as coordinate} x {dimension coordinate, auxiliary '
@@ -29,7 +31,15 @@ RULE = ('(a) systematic block: one depth coordinate per dataset over the product
         'in every position; (b) random datasets with 1-3 depth coordinates (distinct dimensions, or two '
         'co-oriented coordinates on one dimension), SHOC fixed names / CF marker attributes; (c) malformed '
         'stream (non-monotonic, single level, NaN, upper-case or misspelt positive, 2-D marked variable, '
-        'unknown / repeated names, dangling bounds, opposite coordinates on one dimension). Every dataset is '
+        'unknown / repeated names, dangling bounds, opposite coordinates on one dimension); (d) one-level depth '
+        'coordinates (a surface-only / bottom-only extract that kept its depth axis, a single sediment layer): '
+        'the product {positive attribute present, absent} x {no bounds, bounds as data variable, bounds as '
+        'coordinate} x {dimension coordinate, auxiliary coordinate, plain variable} x {values positive-up, '
+        'positive-down} = 36 configurations rotating through the conventions, plus random datasets with 1-3 '
+        'coordinates of 1-3 levels at least one of which has a single level; for these the three option pairs '
+        'that leave deep_to_shallow unset go through the oracle and the model (sign, bounds, data, idempotence, '
+        'untouched, purity all apply to a one-level coordinate), the pairs that request an ordering are compared '
+        'with the model only (the code as written refuses them for a one-level coordinate). Every dataset is '
         'normalised with all 9 option pairs, each applied twice, through the accessor and through the module '
         'function; the model line carries the whole dataset (generator ground truth), the output is the whole '
         'resulting dataset (every variable, attribute token, coordinate status, warnings). A case is '
@@ -38,7 +48,9 @@ RULE = ('(a) systematic block: one depth coordinate per dataset over the product
 TRUSTED = ['xarray: Dataset.copy (shallow, attribute dictionaries copied), assign / assign_coords keep attributes and '
            'coordinate status, isel with a reversed slice reverses every variable that has the dimension '
            '(modelled by Ems.Depth.revVar / Dataset.reverseAlong)']
-ASSUMPTIONS = ['depth coordinates are strictly monotonic with >= 2 levels and no NaN',
+ASSUMPTIONS = ['depth coordinates are strictly monotonic with >= 2 levels and no NaN; with deep_to_shallow unset any '
+               'number of levels (Ems.Depth.ValidSign, the sign_only_* theorems): a one-level coordinate has a sign '
+               'convention but no ordering',
                "the positive attribute, when present, is spelled 'up' or 'down'",
                'coordinate names are distinct; a bounds variable belongs to one coordinate and is not itself a depth coordinate',
                'theorems about several coordinates assume pairwise distinct depth dimensions (coordinates sharing a '
@@ -263,13 +275,13 @@ def systematic_configs():
         yield {'positive': positive, 'bounds': bounds, 'form': form, 'deep_first': deep_first, 'up': up}
 
 
-def systematic_recipe(rng, conv: str, cfg: dict) -> dict:
+def systematic_recipe(rng, conv: str, cfg: dict, levels=(2, 3, 4)) -> dict:
     base_r = D.base_recipe(rng, conv, 2, 2 if conv != 'cf1d' else 3)
     base = G.build(base_r)
     name, dim = D.name_pool(conv)[0]
     if cfg['form'] == 'dim':
         dim = name
-    n = rng.choice([2, 3, 4])
+    n = rng.choice(list(levels))
     c = D.random_coord(rng, conv, name, dim, n, positive='match' if cfg['positive'] else None,
                        bounds=cfg['bounds'], as_='var' if cfg['form'] == 'var' else 'coord',
                        deep_first=cfg['deep_first'], up=cfg['up'])
@@ -280,6 +292,36 @@ def systematic_recipe(rng, conv: str, cfg: dict) -> dict:
     spec['vars'].append({'name': 'surf', 'kind': kind, 'axis': None, 'time': True, 'base': 770000})
     spec['vars'].append({'name': 'profile', 'kind': None, 'axis': dim, 'time': False, 'base': 880000})
     return {'base': base_r, 'depth': spec}
+
+
+# --- one-level depth coordinates (a surface-only / bottom-only extract that kept its depth axis, a single
+# sediment layer).  A coordinate with one level has a sign convention but no ordering: the sign clause, the
+# bounds clause, "data stay attached", idempotence, "unset options leave the aspect untouched" and purity all
+# apply to it when `deep_to_shallow` is left unset.  (With `deep_to_shallow` set the code as written raises
+# for such a coordinate -- `d1, d2 = values[0:2]` -- which the model mirrors; those option pairs are compared
+# with the model only.)
+SIGN_OPTS = [(pd, None) for pd in (None, True, False)]
+ORDER_OPTS = [(pd, dts) for pd in (None, True, False) for dts in (True, False)]
+
+
+def single_level_configs():
+    for positive, bounds, form, up in itertools.product(
+            ('attr', None), (None, 'var', 'coord'), ('dim', 'coord', 'var'), (True, False)):
+        yield {'positive': positive, 'bounds': bounds, 'form': form, 'deep_first': False, 'up': up}
+
+
+def has_single_level(recipe) -> bool:
+    return any(ax['n'] == 1 for ax in recipe['depth']['axes'])
+
+
+def mixed_levels_recipe(rng, conv: str, shared: bool) -> dict:
+    """1-3 depth coordinates of 1-3 levels, at least one of them with a single level"""
+    for _ in range(20):
+        r = D.random_dataset(rng, conv, levels=(1, 1, 2, 3), positions=rng.choice(['all', 'shuffled-all', 'random']),
+                             kinds_per_axis=rng.choice([1, 2]), shared_dim=shared)
+        if has_single_level(r):
+            return r
+    return D.random_dataset(rng, conv, levels=(1,), positions='random', kinds_per_axis=1, shared_dim=shared)
 
 
 def malformed_recipe(rng, conv: str):
@@ -384,10 +426,10 @@ def run(ctx) -> None:
     rng = ctx.rng
     items = []
 
-    def one_dataset(db, names, stream: str, cfg_key, vias, valid: bool, opts=OPTS):
+    def one_dataset(db, names, stream: str, cfg_key, vias, valid: bool, opts=OPTS, hyp=True):
         recipe = db.recipe
         snap_in = snapshot(db.ds)
-        if valid:
+        if valid and hyp:
             # do the hypotheses of the theorems (Ems.Depth.Valid) hold for this input?  They must, except
             # for coordinates sharing a dimension, which only the correspondence and the oracle cover
             shared = any(len(ax['coords']) > 1 for ax in recipe['depth']['axes'])
@@ -520,6 +562,48 @@ def run(ctx) -> None:
             names = disc if disc is not None else D.discovery(db)
         opts = rng.sample(OPTS, 4)
         one_dataset(db, names, 'malformed:' + label, label, ['function'], False, opts=opts)
+
+    # (d) one-level depth coordinates: the sign-only option pairs are inside the property (oracle + model),
+    # the pairs that request an ordering are compared with the model only (both refuse)
+    def one_level_dataset(db, names, stream, key, vias):
+        # the theorems about >= 2 levels do not speak about this input (`hyp` = 0); the sign-only theorems
+        # (Ems.Depth.ValidSign: any number of levels) do, unless two coordinates share a dimension
+        shared = any(len(ax['coords']) > 1 for ax in db.recipe['depth']['axes'])
+        for op, want in (('hyp', '0'), ('hypsign', '0' if shared else '1')):
+            line = f"{op} {D.dataset_str(db.sizes, db.mvars)} {','.join(names) or '-'}"
+            items.append((line, want, {'recipe': db.recipe, 'names': list(names), 'stream': stream,
+                                       'op': line, 'opt': 'NN', 'via': 'function'}))
+        ctx.count('sign-only theorem hypotheses hold' if not shared
+                  else 'sign-only theorem hypotheses do not hold (shared dimension)')
+        one_dataset(db, names, stream, key, vias, True, opts=SIGN_OPTS, hyp=False)
+        one_dataset(db, names, 'malformed:' + stream + '-ordering', key, ['function'], False,
+                    opts=rng.sample(ORDER_OPTS, 2))
+
+    k = rng.randrange(5)
+    for rep in range(reps * ctx.mult):
+        for cfg in single_level_configs():
+            conv = D.CONVS[k % 5]
+            k += 1
+            recipe = systematic_recipe(rng, conv, cfg, levels=(1,))
+            db = D.build(recipe)
+            names = D.discovery(db)
+            got = discovery_checks(db, 'one-level')
+            via = ['accessor'] if (k % 2 and got == names) else ['function']
+            key = tuple(sorted((a, str(b)) for a, b in cfg.items()))
+            one_level_dataset(db, names, 'one-level', key, via)
+    for i in range(ctx.budget(20, 200)):
+        conv = D.CONVS[i % 5]
+        shared = (i % 4 == 3)
+        recipe = mixed_levels_recipe(rng, conv, shared)
+        db = D.build(recipe)
+        names = D.discovery(db)
+        got = discovery_checks(db, 'one-level-mixed')
+        vias = ['accessor'] if (i % 2 == 0 and got == names) else ['function']
+        if vias == ['function'] and rng.random() < 0.5:
+            names = list(names)
+            rng.shuffle(names)
+        levels = tuple(sorted(ax['n'] for ax in recipe['depth']['axes']))
+        one_level_dataset(db, names, 'one-level-mixed', ('mixed', levels, shared), vias)
 
     if ctx.searching and ctx.driver is None:
         ctx.evaluated(len(items))
